@@ -829,10 +829,14 @@ def _svc(seed, pre):
     return rss
 
 
+_LAST = {}
+
+
 def _run_trials(c, seed, pre, n, ncpu, nsig, mini, kwargs=None):
     """mini: None | {'seed', 'pre'} (a separate minimiser service) | 'same' (the data service itself is passed)"""
     ana = _mk_ana(c)
     rss = _svc(seed, pre)
+    _LAST['rss'] = rss          # inspected after a raise
     mrss = rss if mini == 'same' else _svc(mini['seed'], mini['pre']) if mini else None
     with _Watchdog(120):
         rec = ana.do_trials(rss, n, ncpu=ncpu, mean_n_sig=nsig, minimizer_rss=mrss, **(kwargs or {}))
@@ -894,14 +898,20 @@ def _trials_impl(case):
     except MachineryError:
         raise
     except Exception as e:  # noqa
-        return 'EXC:%s:%s' % (type(e).__name__, e), None, None
+        return 'EXC:%s:%s' % (type(e).__name__, e), _LAST.get('rss'), None
     return _rows(rec), rss, mrss
 
 
 def _trials_compare(case, impl, rss, mrss, model):
     if model.startswith('ERR:'):
-        # do_trials raises (ncpu < 1, n = 0): only *that* it raises is compared, not the exception class
-        return None if impl.startswith('EXC:') else 'model: do_trials raises (%s), the implementation returned %s' % (model, impl[:200])
+        # do_trials raises (ncpu < 1, n = 0): only *that* it raises is compared, not the exception class — and the
+        # state it leaves the caller's service in
+        if not impl.startswith('EXC:'):
+            return 'model: do_trials raises (%s), the implementation returned %s' % (model, impl[:200])
+        sd, p = model.split(' ')[1].split(':')[1:]
+        if rss is not None and not _same_state(rss.random.get_state(), _state_at(int(sd), int(p))):
+            return 'data service after the raising do_trials(n=%d, ncpu=%d): model says word %s, the implementation is elsewhere' % (case['n'], case['ncpu'], p)
+        return None
     if impl.startswith('EXC:'):
         return 'implementation raised %s' % impl[4:]
     parts = dict(x.split(':', 1) for x in model.split(' '))
@@ -1597,7 +1607,7 @@ def _branches_old(count, c, m):
         count('branch:extendShared:history')
     elif k == 'trials':
         if m.startswith('ERR:'):
-            count('branch:doTrials:raises-' + ('ncpu' if m == 'ERR:value' else 'no-trials'))
+            count('branch:doTrials:raises-' + ('ncpu' if m.startswith('ERR:value') else 'no-trials'))
             return
         count('branch:doTrials:returns')
         count('branch:doTrial:' + ('aliased' if c.get('mini') == 'same' else 'explicit' if c.get('mini') else 'no') + '-minimiser-service')
@@ -1641,8 +1651,14 @@ def _extfile_req(case):
     B = 2 * pre + 2 * n * npts * (1 + c['maxev'] + 6) + 2 * c['npar'] * c['maxrep'] + 8
     cand = sorted(set(range(_gen()['seedStart'], _gen()['seedStart'] + len(file) + 2)) | {case['cur']})
     tabs = ';'.join('%d=%s' % (sd, ','.join(str(int(x)) for x in _words(sd, B))) for sd in cand)
-    return 'extfile %d %d %d %d %d %s %s %s %d %s %d %d %s %s %s' % (
-        _gen()['seedStart'], n, case.get('ncpu', 1), case['cur'], 2 * pre, ilist(file), _grid_tok(case['g1']), _grid_tok(case['g2']),
+    mini = case.get('mini')
+    if mini:
+        cand = sorted(set(cand) | {mini['seed']})
+        B = max(B, 2 * mini['pre'] + 2 * n * npts * c['npar'] * c['maxrep'] + 8)
+        tabs = ';'.join('%d=%s' % (sd, ','.join(str(int(x)) for x in _words(sd, B))) for sd in cand)
+    return 'extfile %d %d %d %d %d %s %s %s %s %d %s %d %d %s %s %s' % (
+        _gen()['seedStart'], n, case.get('ncpu', 1), case['cur'], 2 * pre, ('%d:%d' % (mini['seed'], 2 * mini['pre'])) if mini else '-',
+        ilist(file), _grid_tok(case['g1']), _grid_tok(case['g2']),
         c['maxev'], f2b(c['thr']), c['maxrep'], c['npar'], f2b(c['lo']), f2b(c['hi']), tabs)
 
 
@@ -1655,21 +1671,24 @@ def _extfile_impl(case):
     td['seed'] = case['file']
     td0 = td.copy()
     rss = _svc(case['cur'], case['pre'])
+    mini = case.get('mini')
+    mrss = _svc(mini['seed'], mini['pre']) if mini else None
+    kw = {'minimizer_rss': mrss} if mini else {}
     try:
         with _Watchdog(120):
             out = extend_trial_data_file(ana, rss, case['n'], td, mean_n_sig=_grid_py(case['g1']), mean_n_sig_null=_grid_py(case['g2']),
-                                         ncpu=case.get('ncpu', 1))
+                                         ncpu=case.get('ncpu', 1), **kw)
     except MachineryError:
         raise
     except Exception as e:  # noqa
-        return 'RAISED:' + type(e).__name__, rss
+        return 'RAISED:' + type(e).__name__, (rss, mrss)
     if td.tobytes() != td0.tobytes() or out[:len(td)].tobytes() != td0.tobytes():
-        return 'CHANGED-OLD-ROWS', rss
-    return (_rows(out[len(td):]), ilist(out['seed'])), rss
+        return 'CHANGED-OLD-ROWS', (rss, mrss)
+    return (_rows(out[len(td):]), ilist(out['seed'])), (rss, mrss)
 
 
 def _extfile_compare(case, impl, model, count=None):
-    res, rss = impl
+    res, (rss, mrss) = impl
     parts = dict(x.split(':', 1) for x in model.split(' '))
     if count:
         count('branch:extendFile:' + ('raises-' + parts['ERR'] if 'ERR' in parts else 'returns'))
@@ -1693,6 +1712,10 @@ def _extfile_compare(case, impl, model, count=None):
     sd, p = parts['rss'].split(':')
     if case.get('ncpu', 1) == 1 and (rss.seed != int(sd) or not _same_state(rss.random.get_state(), _state_at(int(sd), int(p)))):
         return 'caller\'s service after extend_trial_data_file: model says seed %s at word %s, the implementation is elsewhere' % (sd, p)
+    if mrss is not None:
+        sd, p = parts['m'].split(':')
+        if not _same_state(mrss.random.get_state(), _state_at(int(sd), int(p))):
+            return 'minimiser service after extend_trial_data_file: model says seed %s at word %s, the implementation is elsewhere' % (sd, p)
     return None
 
 
@@ -2227,7 +2250,13 @@ def run(ctx):  # noqa: C901
         if g2['form'] == 'scalar' and g2.get('num') == 'int':
             g2['v'] = float(int(g2['v']))
         cases.append({'kind': 'extfile', 'cfg': _gen_cfg(rng), 'file': file, 'cur': rng.choice(file) if file and j % 3 else rng.randrange(0, 7),
-                      'pre': rng.choice([0, 0, 3]), 'n': 0 if j % 11 == 5 else rng.choice([1, 2, 3]), 'g1': g1, 'g2': g2})
+                      'pre': rng.choice([0, 0, 3]), 'n': 0 if j % 11 == 5 else rng.choice([1, 2, 3]), 'g1': g1, 'g2': g2,
+                      'mini': {'seed': rng.choice(seeds0), 'pre': rng.choice([0, 2])} if j % 4 == 1 else None})
+    z = {'form': 'scalar', 'v': 0.0, 'num': 'float'}
+    cases.append({'kind': 'extfile', 'cfg': _gen_cfg(rng), 'file': [0, 1], 'cur': 1, 'pre': 0, 'n': 0, 'g1': dict(z, v=1.0), 'g2': z, 'mini': None})
+    cases.append({'kind': 'extfile', 'cfg': _gen_cfg(rng), 'file': [0, 1], 'cur': 5, 'pre': 2, 'n': 2, 'g1': {'form': 'array', 'v': []}, 'g2': z, 'mini': None})
+    cases.append({'kind': 'extfile', 'cfg': _gen_cfg(rng), 'file': [0, 1], 'cur': 0, 'pre': 0, 'n': 1, 'g1': {'form': 'r3', 'v': [0.0, 2.0, 2.0], 'seq': 'list'},
+                  'g2': z, 'mini': None})
     for cv in (None, -1, 0, 1, 3):
         for lv in (None, -2, 0, 1, 2, 5):
             cases.append({'kind': 'ncpu', 'cfg': cv, 'loc': lv})
